@@ -108,9 +108,11 @@ def c08_combiner(o, nid, nr, T):
         if d is None or "gathered" not in l:
             break
         # the delay starts when the last ingredient is in and the (single) worker slot is free
-        start = l.get("draw_t", None)
+        start = l.get("complete_t", None)
         if start is None:
             break
+        if "draw_t" in l and l["draw_t"] != start:
+            o.violate("C08", "delay-drawn-late", o.nlabel(nid), f"{nid}: pallet {l['item']} complete at {start} but the processing delay was drawn at {l['draw_t']}")
         start = max(start, prev_leave)
         f = start + d
         if f <= T:
@@ -428,9 +430,9 @@ def c17_unit_activity(o, nid, nr, node, T):
         if nr.type == "splitter":
             start = l["pull_t"]
         else:
-            if "draw_t" not in l:
+            if "complete_t" not in l:
                 continue
-            start = max(l["draw_t"], prev_leave)
+            start = max(l["complete_t"], prev_leave)
         fin = start + d
         end = l["leave_t"] if l["leave_t"] is not None else T
         iv.append((start, min(fin, T), "P"))
